@@ -60,7 +60,9 @@ Proof. exact c20_body_enabled. Qed.
 Print Assumptions C20_body_enabled.
 
 (* ---- 3. silent clients ---- *)
-(* with a timeout configured the time-out of a silent connection is always enabled and finishes it ... *)
+(* with a timeout configured the time-out of a silent connection is always enabled and finishes it ...
+   (WReading begins at accept -- settimeout is called in get_request -- so this covers a client that never starts the
+   TLS handshake as well as one that is silent after it; checked on the real https server by the ssl scenario) *)
 Theorem C20_silent : forall cfg s w, reachable cfg s -> timeout_on cfg = true ->
   In w (workers s) -> w_st w = WReading -> w_cl w = CIdle ->
   exists s', step cfg s (TTimeout (w_id w)) = Some (s', [OTimedOut (w_id w)]) /\
